@@ -58,6 +58,9 @@ class Boom(Exception):
     pass
 
 
+FAULT = {"cls": Boom}       # what the failing callable raises: an ordinary exception, or a BaseException (Ctrl-C, sys.exit)
+
+
 def failing_after(k, fn):
     """wrap fn: raises Boom on call number k (0-based); k < 0 never"""
     state = {"n": 0, "armed": False}
@@ -66,7 +69,7 @@ def failing_after(k, fn):
         if state["armed"]:
             if state["n"] == k:
                 state["n"] += 1
-                raise Boom("injected at call %d" % k)
+                raise FAULT["cls"]("injected at call %d" % k)
             state["n"] += 1
         return fn(*a, **kw)
     wrapped.state = state
@@ -206,7 +209,8 @@ def fault_job(job):
     import contextlib
     import io
     import oqupy.util as util
-    api, ptype, k = job
+    api, ptype, k = job[:3]
+    FAULT["cls"] = {"KeyboardInterrupt": KeyboardInterrupt, "SystemExit": SystemExit}.get(job[3] if len(job) > 3 else "", Boom)
     saved = util.Timer
     registry = pe.install_passive_timer()
     out = []
@@ -222,7 +226,7 @@ def fault_job(job):
         with contextlib.redirect_stdout(buf):
             try:
                 thunk()
-            except Exception as ex:  # pylint: disable=broad-except
+            except BaseException as ex:  # pylint: disable=broad-except
                 raised = type(ex).__name__
                 kept = ex            # what a logging framework / pytest.raises does: the exception stays referenced
         armed = sum(1 for t in registry if t.state == "armed")
@@ -238,6 +242,7 @@ def fault_job(job):
         out.append({"what": "harness", "detail": traceback.format_exc()[-500:]})
     finally:
         util.Timer = saved
+        FAULT["cls"] = Boom
     return {"mm": out, "raised": raised, "timers": len(registry)}
 
 
@@ -352,9 +357,14 @@ def run(ctx):
     ks = [-1, 0, 1, 2] if quick else [-1, 0, 1, 2, 3, 4, 5]
     jobs = [(api, pt, k) for api in APIS for pt in ("bar", "simple", "silent", None) for k in ks
             if not (pt in ("simple", "silent") and k > 0)]
+    # the user interrupts (Ctrl-C) or a callable calls sys.exit(): not an Exception, the timers must still be stopped
+    jobs += [(api, "bar", 1, cls) for api in APIS if "multi" not in api for cls in (("KeyboardInterrupt",) if quick else
+                                                                                  ("KeyboardInterrupt", "SystemExit"))]
     res = core.pmap(fault_job, jobs, chunksize=2)
-    for (api, pt, k), r in zip(jobs, res):
-        ctx.case({"api": api, "progress_type": pt, "fail_at_call": k, "raised": r["raised"], "timers": r["timers"]},
+    for job_, r in zip(jobs, res):
+        api, pt, k = job_[:3]
+        ctx.case({"api": api, "progress_type": pt, "fail_at_call": k, "raised": r["raised"], "timers": r["timers"],
+                  "fault": job_[3] if len(job_) > 3 else "Exception"},
                  nontrivial=r["raised"] is not None and r["timers"] > 0)
         for x in r["mm"]:
             if x["what"] == "harness":
@@ -364,7 +374,7 @@ def run(ctx):
             else:
                 key = "C19:%s:%s" % (api, x["what"])
             ctx.violation(key, "api=%s progress=%s fail_at=%s: %s" % (api, pt, k, x),
-                          {"api": api, "ptype": pt, "k": k})
+                          {"api": api, "ptype": pt, "k": k, "fault": job_[3] if len(job_) > 3 else ""})
     # (D) real timers, once per API
     rjobs = [(api, 1) for api in APIS] + [(api, -1) for api in APIS[:2]]
     res = core.pmap(real_thread_job, rjobs)
@@ -395,7 +405,7 @@ def replay(ctx, rep):
     elif c.get("real"):
         mm = real_thread_job((c["api"], c["k"]))
     else:
-        mm = fault_job((c["api"], c["ptype"], c["k"]))["mm"]
+        mm = fault_job((c["api"], c["ptype"], c["k"], c.get("fault", "")))["mm"]
     ctx.case({"replay": True})
     for x in mm:
         ctx.violation("C19:replay:" + x["what"], str(x), c)
